@@ -37,6 +37,8 @@ class World:
         self.specs['sB'] = implementedBy(B)
         self.specs['pb'] = b.__provides__
         self.specs['D'] = Declaration(I['I1'], I['I3'])
+        self.observers = []
+        self.max_observers = 1
         self.refresh()
 
     def refresh(self):
@@ -48,6 +50,31 @@ class World:
 
     def name(self, s):
         return self.names.get(id(s), '?' + getattr(s, '__name__', type(s).__name__))
+
+
+class Rebaser:
+    """A dependent of one specification (``subscribe()`` is the documented way
+    to be told about changes) that answers its first notification by
+    re-basing another specification: a ``__bases__`` assignment nested inside
+    another one."""
+
+    def __init__(self, w, watched, target, bases):
+        self.w, self.watched, self.target, self.bases = w, watched, target, bases
+        self.armed = True
+        self.fired_inside = None
+
+    def changed(self, originally_changed):
+        if not self.armed:
+            return
+        self.armed = False
+        sp = self.w.specs
+        node = sp[self.target]
+        new = tuple(sp[b] for b in self.bases) or (Interface,)
+        for b in new:
+            if any(x is node for x in reach(b)):
+                return          # would be a cycle in the state reached by now
+        self.fired_inside = self.watched
+        node.__bases__ = new
 
 
 def reach(s, acc=None):
@@ -77,6 +104,14 @@ def all_ops(cfg):
         # a query through a super proxy: fills the per-class cache of super
         # specifications, which a later change has to drop again
         out.append(('SQ',))
+    if cfg.get('observers'):
+        # obs: subscribe a dependent to n that re-bases m from inside its first
+        # notification
+        for n in N:
+            for m in N:
+                for k in range(0, 2):
+                    for bs in itertools.permutations([x for x in N if x != m], k):
+                        out.append(('obs', n, m, bs))
     return out
 
 
@@ -101,6 +136,12 @@ def apply(w, op):
     elif t == 'dp':
         directlyProvides(w.b, *[sp[x] for x in op[1:]])
         w.refresh()
+    elif t == 'obs':
+        if len(w.observers) >= w.max_observers:
+            return False
+        o = Rebaser(w, op[1], op[2], op[3])
+        w.observers.append(o)
+        sp[op[1]].subscribe(o)
     elif t == 'SQ':
         providedBy(super(w.B, w.b))
         implementedBy(super(w.B, w.b))
@@ -199,11 +240,15 @@ def canon(w):
         out.append((name, tuple(w.name(b) for b in s.__bases__),
                     tuple(w.name(x) for x in s.__sro__), deps,
                     bool(getattr(s, '_super_cache', None))))
+    for o in w.observers:
+        if o.armed:
+            out.append(('obs', o.watched, o.target, o.bases))
     return tuple(out)
 
 
 def run_hist(cfg, hist):
     w = World()
+    w.max_observers = cfg.get('max_observers', 1)
     for op in hist:
         if not apply(w, tuple(op)):
             return w, 'disabled'
@@ -274,8 +319,19 @@ def run(ctx):
             ctx.sample(dict(impl=impl, history=r['frontier'][len(r['frontier']) // 2]))
         if ctx.unknown_viol():
             break
+        # nested assignments: a dependent of one specification re-bases another
+        # one from inside the change notification
+        cfg = dict(oracle='c02', maxb=1, decl_ops=False, observers=True,
+                   max_observers=1 if ctx.tier == 'quick' else 2)
+        r = bfs(ctx, impl, 'expand', cfg, 3, label='nested')
+        ctx.add(states=r['states'], transitions=r['transitions'])
+        ctx.info['%s/nested' % impl] = dict(depth=r['depth_done'], states=r['states'],
+                                            transitions=r['transitions'], fixpoint=r['fixpoint'])
+        if ctx.unknown_viol():
+            break
     ctx.count['traces_validated_against_impl'] = ctx.count['transitions']
-    ctx.assumptions += ['4 interfaces + implementedBy(A), implementedBy(B(A)), an instance Provides, a plain Declaration; base lists <= 2 (thorough 3); cycles excluded (unsupported by the library)']
+    ctx.assumptions += ['4 interfaces + implementedBy(A), implementedBy(B(A)), an instance Provides, a plain Declaration; base lists <= 2 (thorough 3); cycles excluded (unsupported by the library)',
+                        'nested layer: base lists <= 1, at most one (thorough: two) one-shot dependent(s) that re-base another interface from inside a change notification']
     return finish(
         ctx, 'model_checking',
         'every sequence of __bases__ reassignments (and class/instance declaration calls that re-base declarations) up to the depth is executed on a fresh real specification graph; in every state isOrExtends/extends/__sro__/__iro__/providedBy of every specification is compared with reachability over the current __bases__ and with a twin graph built directly in the final shape',
